@@ -11,7 +11,7 @@ TRUSTED_BASE = [
 PROPS = {
     "C11": dict(
         level="proof",
-        specs=["specs.c11_geometry"],
+        specs=["specs.c11_geometry", "specs.c03_route"],
         bounded=["bounded.c11_bfs"],
         trusted=["induction over the length of a walk (lemma hexd_lipschitz gives the step), stated in DESIGN.md 8/C11"],
     ),
